@@ -87,7 +87,9 @@ class Facts:
         taskvars: Iterable[str] = (),
         ignore_writes: Iterable[str] = (),
         post: Callable[[Node, dict], None] | None = None,
+        stable: Iterable[str] = (),
     ):
+        self.stable = set(stable)  # atoms no call or suspension inside the analysed function can change (stated by the rule, with its reason)
         self.post = post  # rule-supplied effect of a node on the facts (e.g. `await sig.wait()` establishes sig.is_set())
         self.ignore_writes = set(ignore_writes)  # attribute names whose writes never invalidate a tracked atom (stated by the rule)
         # names of module-level ContextVars: `NAME.get()` is task-local, so only an explicit write to NAME in this
@@ -103,7 +105,10 @@ class Facts:
         """Forget non-local atoms that executing *st* may change."""
         if isinstance(st, (ast.FunctionDef, ast.AsyncFunctionDef, ast.ClassDef)):
             return  # a definition executes none of its body
-        nonlocal_atoms = [a for a in env if ('(' in a or '.' in a) and not (a in self.sticky_true and env[a] in TRUTHY) and not self._init_only(a) and not _type_test_of_local(a)]
+        if any(isinstance(x, (ast.Call, ast.Await)) for x in ast.walk(st)):
+            for a in [k for k, w in env.items() if isinstance(w, str) and w.startswith('=') and ('(' in w or '.' in w)]:
+                del env[a]  # a remembered test over non-local state does not survive a call
+        nonlocal_atoms = [a for a in env if ('(' in a or '.' in a) and a not in self.stable and not (a in self.sticky_true and env[a] in TRUTHY) and not self._init_only(a) and not _type_test_of_local(a)]
         if self.taskvars:
             tv = [a for a in nonlocal_atoms if a.endswith('.get()') and a[:-6] in self.taskvars]
             if tv:
@@ -192,7 +197,11 @@ class Facts:
             return None if t is None else (t != ca[1])
         a = self.atom_of(e)
         if a is not None:
-            return truth_of(env.get(a))
+            v = env.get(a)
+            if isinstance(v, str) and v.startswith('='):
+                # a local that holds the value of a test over tracked atoms (`ok = A and not B`): its truth is the truth of that test
+                return self.eval(ast.parse(v[1:], mode='eval').body, {k: w for k, w in env.items() if k != a})
+            return truth_of(v)
         return None
 
     def assume(self, e: ast.AST, truth: bool, env: dict) -> dict | None:
@@ -257,6 +266,15 @@ class Facts:
         if a is None:
             return env
         v = env.get(a)
+        if isinstance(v, str) and v.startswith('='):
+            rest = {k: w for k, w in env.items() if k != a}
+            env2 = self.assume(ast.parse(v[1:], mode='eval').body, truth, rest)
+            if env2 is None:
+                return None
+            env2[a] = 'T' if truth else 'F'
+            env.clear()
+            env.update(env2)
+            return env
         if truth:
             if v in FALSY:
                 return None
@@ -275,7 +293,7 @@ class Facts:
     def _kill_mentions(self, env: dict, ident: str) -> None:
         pat = re.compile(rf'(?<![\w.]){re.escape(ident)}(?![\w])')
         for a in list(env):
-            if pat.search(a):
+            if pat.search(a) or (isinstance(env[a], str) and env[a].startswith('=') and pat.search(env[a])):
                 del env[a]
 
     def transfer(self, n: Node, env: dict) -> dict:
@@ -332,6 +350,8 @@ class Facts:
                         src = self.atom_of(value)
                         if src is not None and src in env:
                             v = env[src]
+                    if v is None and isinstance(targets[0], ast.Name) and isinstance(_unbool(value), (ast.BoolOp, ast.Compare, ast.UnaryOp, ast.Call)) and self._pure_test(_unbool(value)):
+                        v = '=' + U(_unbool(value))
                     if v is not None:
                         env[a] = v
                     else:
@@ -384,6 +404,19 @@ class Facts:
                 self._havoc_nonlocal(env)
         return env
 
+    def _pure_test(self, e: ast.AST) -> bool:
+        """A test built with and / or / not / comparisons to None from atoms the rule tracks (at least one), and nothing else."""
+        e = _unbool(e)
+        if isinstance(e, ast.BoolOp):
+            return all(self._pure_test(v) for v in e.values)
+        if isinstance(e, ast.UnaryOp) and isinstance(e.op, ast.Not):
+            return self._pure_test(e.operand)
+        if isinstance(e, ast.Compare) and len(e.ops) == 1 and isinstance(e.ops[0], (ast.Is, ast.IsNot)) and isinstance(e.comparators[0], ast.Constant) and e.comparators[0].value is None:
+            return self.atom_of(e.left) is not None
+        if self.cmp_atom(e) is not None:
+            return True
+        return self.atom_of(e) is not None
+
     def _init_only(self, atom: str) -> bool:
         """`x.attr` where attr is written by constructors only, anywhere in the library: a suspension cannot change it (configuration flags)."""
         m = re.fullmatch(r'\w+\.(\w+)', atom)
@@ -400,7 +433,7 @@ class Facts:
         for a in list(env):
             if a.endswith('.get()') and a[:-6] in self.taskvars:
                 continue
-            if self._init_only(a) or _type_test_of_local(a):
+            if self._init_only(a) or _type_test_of_local(a) or a in self.stable:
                 continue
             if ('(' in a or '.' in a) and not (a in self.sticky_true and env[a] in TRUTHY):
                 del env[a]
